@@ -6,7 +6,6 @@ NOT_APPLICABLE = {
     "C18": "reachability of stored tree nodes from the current root over all histories is a property of runtime data, not of code shape",
     "C23": "soundness relates the comparison verdict to validity of all payloads under two schemas; semantic, no structural necessary condition",
     "C24": "numerical exactness over 192/256-bit values; panic-freedom needs value-range arguments (widening products) that no sound static rule in reach discharges",
-    "C25": "rounding results are numerical; value-level",
     "C26": "truncation of roots/powers is numerical; value-level",
     "C27": "parse/print inverse is a round-trip equality over all strings/values; value-level",
     "C38": "soundness of analyser output against all executions on all ledger states is semantic",
@@ -259,3 +258,9 @@ claim("C37", "variant-arm agreement (every constraint kind has a rejecting path)
       "no catch-all and every kind's arm contains a rejecting path; every ResourceConstraint(s)Error variant is produced; the general constraint "
       "returns Ok only past the lower-bound, upper-bound and allow-list validations and checks required ids. The iff itself (each comparison "
       "being the right one, normalisation, declared-valid implies satisfiable) is value-level and not decided.")
+
+claim("C25", "finite table agreement: RoundingMode -> resolved direction, extracted from MIR match arms",
+      "Decides the mode -> direction table only: from_mode maps every RoundingMode variant (no catch-all) to the declared direction / tie strategy; "
+      "towards_zero / away_from_zero / from_midpoint_ordering have the declared sign and midpoint tables; Decimal and PreciseDecimal checked_round "
+      "resolve the caller's mode through from_mode and match every resolved strategy, adding on RoundUp and subtracting on RoundDown. The rounded "
+      "value itself, overflow reporting and divisibility handling are numerical and not decided.")
